@@ -95,9 +95,21 @@ def modules_case(draw, n_inputs=2):
             root = (k == n - 1 and j == nfun - 1)
             fname = "f" if root else "h%d_%d" % (k, j)
             exported = root or draw(st.booleans())
-            f = g.function(fname, exported, nparams=draw(st.integers(1, 3)), ptypes=ptypes,
-                           rtypes=[INT, FLOAT, FLOAT, M.vec("float", 2)] if not root else [INT, FLOAT],
-                           size=draw(st.integers(1, 5)), depth=2)
+            forced_sig = None
+            imported_plain = [i for dep in dag[k] for i in modules[dep]["funcs"] if not g.funcs[i].exported
+                              and sum(1 for x in g.funcs if x.name == g.funcs[i].name) == 1]
+            if not root and imported_plain and draw(st.integers(0, 9)) < 4:
+                # an overload set split over two modules: this module adds an overload to an imported function
+                base = g.funcs[draw(st.sampled_from(imported_plain))]
+                alt = tuple((FLOAT if t == INT else INT if t == FLOAT else M.vec("float", 3) if t == M.vec("float", 2)
+                             else M.vec("float", 2)) for t, _ in base.params)
+                fname, exported, forced_sig = base.name, False, alt
+            if forced_sig is not None:
+                f = genx._helper(g, fname, forced_sig)
+            else:
+                f = g.function(fname, exported, nparams=draw(st.integers(1, 3)), ptypes=ptypes,
+                               rtypes=[INT, FLOAT, FLOAT, M.vec("float", 2)] if not root else [INT, FLOAT],
+                               size=draw(st.integers(1, 5)), depth=2)
             if dag[k] and not _calls_any(f, g.allowed - set(own)):
                 # make sure the module really uses what it imports: add a call to one imported function
                 cands = sorted(g.allowed - set(own))
